@@ -5,6 +5,9 @@ with rounding (absent overflow/underflow).  Every scale-covariant operation ther
 magnitudes whatever dyadic unit the operands are written in, which makes discontinuous operations (//, %, divmod,
 comparisons, min/max) decidable without tolerances.  The exponent step is 12 so that square, cube, 4th and 6th roots
 of a rescaled operand are still exact powers of two (a probe with step 1 produced spurious sqrt(2) mismatches).
+Caveat seen while building C04: unyt computes the scale of unit**(1/3) with float pow, and 4096.0**(1/3) is
+15.999999999999998, so units with third/sixth powers are 1 ulp off a power of two *inside unyt*; users wanting bit
+equality should keep exponents to integers, halves and quarters (sqrt and **0.25 of 2**(12k) are exact).
 
 Documented API (pure data + small helpers; nothing here calls unyt except `registry()` / `make()`):
 
@@ -15,9 +18,11 @@ Documented API (pure data + small helpers; nothing here calls unyt except `regis
   DIMVEC[letter]            8-component Fraction dimension vector (vf.ref.dims convention)
   scale(sym, table=ATOMS)   exact float scale of an atom
   resolver(table=ATOMS)     callback for vf.ref.uexpr.evaluate: atom -> (scale, dimvec)
-  evaluate(expr, table)     -> (scale, dimvec) of a unit expression over the atoms (own evaluator, independent of unyt)
+  evaluate(expr, table)     -> (scale, dimvec) of a unit expression over the atoms (own evaluator, independent of unyt; the scale
+                            is snapped to the exact power of two)
   log2scale(expr, table)    -> integer e with scale == 2.0**e   (raises if the scale is not a power of two)
   atoms_of(letter)          symbols of one dimension, ordered by k
+  fmt_pow(sym, e)           spelling of sym**e for a Fraction e
   compose(dimvec, pick)     unit expression string for an arbitrary dimension vector with integer / half / third exponents
                             over L,T,M,A;  pick(letter) -> symbol chooses the atom for each base dimension
   alternatives(dimvec, rnd, n)  n distinct-as-strings expressions of that dimension (random atoms per factor)
@@ -88,7 +93,8 @@ def atoms_of(letter, table=ATOMS):
     return sorted((s for s, (l, k) in table.items() if l == letter), key=lambda s: table[s][1])
 
 
-def _fmt_pow(sym, e):
+def fmt_pow(sym, e):
+    """'sym', 'sym**3', 'sym**(-2)' or 'sym**(1/2)' for a Fraction exponent"""
     e = Fr(e)
     if e == 1:
         return sym
@@ -108,7 +114,7 @@ def compose(dimvec, pick):
         if e == 0:
             continue
         sym = pick(letter)
-        (num if e > 0 else den).append(_fmt_pow(sym, abs(e)))
+        (num if e > 0 else den).append(fmt_pow(sym, abs(e)))
     if not num and not den:
         return "dimensionless"
     s = "*".join(num) if num else "1"
